@@ -1,6 +1,6 @@
 /* harness `comm` (MPI): the communication primitives of ref_mpi.c + ref_search_selection.
  *
- * Only rank 0 reads stdin; every op line is broadcast to all ranks (plain MPI_Bcast).  One op line carries
+ * Only rank 0 reads the op lines (stdin, or the file named by `--ops <file>`); every op line is broadcast to all ranks (plain MPI_Bcast).  One op line carries
  * the arguments of ALL ranks:   op np header... | rank-0 group | rank-1 group | ...
  * Every rank parses the whole line, picks its share, all ranks call the real ref_mpi function, the per-rank
  * result strings are gathered to rank 0 with plain MPI_Gather/MPI_Gatherv and printed as one line
@@ -638,10 +638,17 @@ static void tokenise(void) {
 
 int main(int argc, char *argv[]) {
   int fd;
+  FILE *in = stdin;
   MPI_Init(&argc, &argv);
   if (REF_SUCCESS != ref_mpi_create(&ref_mpi)) return 3;
   me = ref_mpi_rank(ref_mpi);
   np = ref_mpi_n(ref_mpi);
+  /* `--ops <file>`: rank 0 reads the op lines from a file instead of stdin (mpiexec's stdin forwarding of
+     Open MPI 4.1.4 is not reliable for megabytes of input) */
+  if (argc >= 3 && 0 == strcmp(argv[1], "--ops") && 0 == me) {
+    in = fopen(argv[2], "r");
+    if (!in) return 4;
+  }
   fd = dup(1);
   out = fdopen(fd, "w");
   if (!freopen("/dev/null", "w", stdout)) return 3;
@@ -653,7 +660,7 @@ int main(int argc, char *argv[]) {
     if (0 == me) {
       for (;;) {
         char *p;
-        if (!fgets(h_line, sizeof(h_line), stdin)) { len = -1; break; }
+        if (!fgets(h_line, sizeof(h_line), in)) { len = -1; break; }
         p = h_line;
         while (*p == ' ' || *p == '\t') p++;
         if (*p == '#' || *p == '\n' || *p == '\r' || *p == 0) continue;
@@ -670,7 +677,7 @@ int main(int argc, char *argv[]) {
     r_reset();
     r_put("");
     r_reset();
-    alarm(30);
+    alarm(10);
     if (0 == strcmp(op, "finddest")) {
       rc = op_finddest();
     } else if (h_nw < 2 || !is_int_tok(h_w[1]) || strlen(h_w[1]) > 6 || h_i(h_w[1]) != np || !split_groups() ||
